@@ -29,9 +29,12 @@ ND == <<100>>
 FS == <<102, 115>>
 x == EVar(NX)
 y == EVar(NY)
-AllToks == {"D", "A", "R", "Dy", "Ry", "{", "I{", "F{", "L{", "W{", "}", "C", "C1", "S", "Q", "Dx", "Fr", "G", "Cg"}
+AllToks == {"D", "A", "R", "Dy", "Ry", "{", "I{", "F{", "L{", "W{", "}", "C", "C1", "S", "Q", "Dx", "Fr", "G", "Cg",
+            "T{", "K", "B", "Sw", "So"}
 SmallToks == {"D", "A", "R", "{", "F{", "L{", "W{", "}", "C", "Q"}
-Openers == {"{", "I{", "F{", "L{", "W{"}
+Openers == {"{", "I{", "F{", "L{", "W{", "T{"}
+TK == <<116, 107>>
+TICK == <<116, 105, 99, 107>>
 WN(i) == <<119, 48 + (i % 10), 48 + (i \div 10)>>
 
 ClosureBody == <<SOpAssign(x, "+", EInt(100)), SPrint(x)>>
@@ -46,6 +49,12 @@ Simple(t, i) ==
       [] t = "S"  -> SIf(EBin(">", EVar(ND), EInt(0)),
                          <<SOpAssign(EVar(ND), "-", EInt(1)), SExpr(ECall(EVar(NF), <<>>))>>)
       [] t = "Q"  -> SOpAssign(EVar(FS), "+", EList(<<EFunc(<<>>, FALSE, ClosureBody)>>))
+      [] t = "K"  -> SContinue
+      [] t = "B"  -> SBreak
+      \* several names in one assignment, living in different scopes
+      [] t = "Sw" -> SAssign(EPat(<<x, y>>), EList(<<EBin("+", y, EInt(1)), EBin("+", x, EInt(2))>>))
+      [] t = "So" -> SAssign(EObj(<<Pair(EStr(<<97>>), x), Pair(EStr(<<98>>), y)>>),
+                             EObj(<<Pair(EStr(<<97>>), EBin("+", y, EInt(3))), Pair(EStr(<<98>>), EBin("+", x, EInt(4)))>>))
       [] t = "Dx" -> SDecl(x, EBin("+", x, EInt(1000)))                  \* the right-hand side reads the outer x
       [] t = "Fr" -> SAssign(EVar(NF), EFunc(<<>>, FALSE, <<SPrint(EInt(777)), SReturn(EFunc(<<>>, FALSE, <<SPrint(EInt(778))>>))>>))
       [] t = "G"  -> SDecl(EVar(<<103, 103>>), EVar(NF))                  \* gg := f
@@ -54,6 +63,8 @@ Simple(t, i) ==
 Compound(t, i, body) ==        \* a sequence of statements
     CASE t = "{"  -> <<SBlock(body)>>
       [] t = "I{" -> <<SIf(EBool(TRUE), body)>>
+      \* `if tick() {`: true on every other evaluation (first, third, ...)
+      [] t = "T{" -> <<SIf(ECall(EVar(TICK), <<>>), body)>>
       [] t = "F{" -> <<SFn(NF, <<>>, FALSE, body \o <<SReturn(EFunc(<<>>, FALSE, ClosureBody))>>)>>
       [] t = "L{" -> <<SFor(EVar(N_us), EList(<<EInt(1), EInt(2)>>), body)>>
       [] t = "W{" -> <<SDecl(EVar(WN(i)), EInt(0)),
@@ -98,6 +109,16 @@ Fresh ==
            <<"D", "F{", "Q", "A", "}", "C1", "R">>, <<"F{", "D", "L{", "Q", "}", "}", "C1">>,
            <<"F{", "L{", "D", "Q", "}", "}", "C1", "C1">>, <<"L{", "F{", "D", "Q", "}", "C1", "}">>,
            <<"D", "L{", "F{", "A", "Q", "}", "C", "}", "R">> }
+    \* an iteration that declares nothing (leaves by `continue`) followed by one that declares
+    \cup UNION { { <<"D", lp, "T{", "Q", "K", "}", dd, "Q", "}", "R">>, <<"D", lp, "Q", "T{", "K", "}", dd, "}", "R">>,
+                   <<"D", lp, "T{", "Q", "}", dd, "Q", "}", "R">>, <<"D", "Dy", lp, "T{", "Q", "K", "}", dd, "Sw", "Q", "}", "R", "Ry">>,
+                   <<"D", lp, "{", "T{", "Q", "K", "}", dd, "Q", "}", "}", "R">>,
+                   <<"D", lp, "T{", "K", "}", "Q", dd, "B", "}", "R">>, <<"D", "F{", "T{", "Q", "}", dd, "Q", "}", "C1", "C1", "R">> }
+                 : lp \in {"L{", "W{"}, dd \in {"D", "Dx", "A"} }
+\* one assignment to several names that live in different scopes
+ShadowAssign ==
+    { <<"D", "Dy">> \o ctx \o <<dd, sw, "R", "Ry">> \o Close(ctx) \o AfterCtx(ctx) \o <<"R", "Ry">> :
+        ctx \in Contexts \cup {<<"T{">>}, dd \in {"D", "Dy"}, sw \in {"Sw", "So"} }
 
 \* a function that refers to its own name sees the live binding of that name
 SelfRef ==
@@ -116,10 +137,12 @@ C04Params ==
     \cup { <<"vanish", s>> : s \in Vanish }
     \cup { <<"fresh", s>> : s \in Fresh }
     \cup { <<"selfref", s>> : s \in SelfRef }
+    \cup { <<"shadowassign", s>> : s \in ShadowAssign }
     \cup { <<"random", RandomSeqs[i].s>> : i \in {j \in 1 .. Len(RandomSeqs) : WellFormed(RandomSeqs[j].s)} }
 
 C04ProgOf(p) ==
-    <<SDecl(EVar(ND), EInt(1)), SDecl(EVar(FS), EList(<<>>))>>
+    <<SDecl(EVar(ND), EInt(1)), SDecl(EVar(FS), EList(<<>>)), SDecl(EVar(TK), EInt(0)),
+      SFn(TICK, <<>>, FALSE, <<SAssign(EVar(TK), EBin("-", EInt(1), EVar(TK))), SReturn(EBin("==", EVar(TK), EInt(1)))>>)>>
     \o ParseFrom(p[2], 1, 0).ss
     \o <<SFor(EPat(<<EVar(N_us), EVar(<<103>>)>>), EVar(FS), <<SExpr(ECall(EVar(<<103>>), <<>>))>>), SPrint(EInt(0))>>
 =============================================================================
